@@ -424,7 +424,7 @@ func (f *Frame) callStatic(callee *ssa.Function, args []string, argVals []ssa.Va
 		}
 		return callOut{r, rs, nst}
 	}
-	if e.P.isExternal(callee) && pureExternal(callee) {
+	if e.P.isExternal(callee) && pureExternal(callee) && !(e.bv() && hasStringSliceResult(callee.Signature)) {
 		// a pure standard-library function over scalars and strings: an uninterpreted function of its arguments
 		// (named "ext:<pkg>.<Func>", so that contracts can refer to it)
 		var as []CVal
@@ -437,6 +437,20 @@ func (f *Frame) callStatic(callee *ssa.Function, args []string, argVals []ssa.Va
 			nm := "ext:" + fnKey(callee)
 			if i > 0 {
 				nm = fmt.Sprintf("%s.%d", nm, i)
+			}
+			if isStringSlice(rt) {
+				// a []string result: a fresh array whose row and length are uninterpreted functions of the arguments
+				// (contracts: ufelem("ext:<pkg>.<Func>", k, args...) and uflen("ext:<pkg>.<Func>", args...))
+				elem := rt.Underlying().(*types.Slice).Elem()
+				ref := e.allocRef(st)
+				comp := elemCompName(e, elem)
+				h := e.comp(st, comp, e.elemSort(elem))
+				row := e.ufAppSort(nm+"#row", as, fmt.Sprintf("(Array %s %s)", e.idxSort(), e.sortOf(elem)))
+				e.setComp(st, comp, fmt.Sprintf("(store %s %s %s)", h, ref, row))
+				n := e.ufAppSort(nm+"#len", as, "Int")
+				e.assume(reach, fmt.Sprintf("(<= 0 %s)", n))
+				rs = append(rs, e.define(f.prefix+"ext", e.sortOf(rt), fmt.Sprintf("(mkSlice %s 0 %s %s)", ref, n, n)))
+				continue
 			}
 			r := e.define(f.prefix+"ext", e.sortOf(rt), e.ufApp(nm, as, rt))
 			if fact := e.typeFact(r, rt, st); fact != "true" {
@@ -760,11 +774,57 @@ func pureExternal(fn *ssa.Function) bool {
 		if i == rs.Len()-1 && types.TypeString(t, nil) == "error" {
 			continue
 		}
+		if isStringSlice(t) {
+			continue
+		}
 		if !basic(t) {
 			return false
 		}
 	}
 	return true
+}
+
+func isStringSlice(t types.Type) bool {
+	sl, ok := t.Underlying().(*types.Slice)
+	if !ok {
+		return false
+	}
+	b, ok := sl.Elem().Underlying().(*types.Basic)
+	return ok && b.Info()&types.IsString != 0
+}
+
+func hasStringSliceResult(sig *types.Signature) bool {
+	for i := 0; i < sig.Results().Len(); i++ {
+		if isStringSlice(sig.Results().At(i).Type()) {
+			return true
+		}
+	}
+	return false
+}
+
+// ufAppSort: like ufApp with an explicit SMT result sort (for array-valued functions).
+func (e *Enc) ufAppSort(name string, args []CVal, sort string) string {
+	fn := "uf_" + sanitize(name)
+	if !e.ufSeen[fn] {
+		e.ufSeen[fn] = true
+		var ss []string
+		for _, a := range args {
+			if a.IsTag {
+				ss = append(ss, "Int")
+			} else {
+				ss = append(ss, e.sortOf(a.T))
+			}
+		}
+		e.ufDecls = append(e.ufDecls, fmt.Sprintf("(declare-fun %s (%s) %s)", fn, strings.Join(ss, " "), sort))
+	}
+	if len(args) == 0 {
+		return fn
+	}
+	var as []string
+	for _, a := range args {
+		as = append(as, a.S)
+	}
+	return "(" + fn + " " + strings.Join(as, " ") + ")"
 }
 
 // callPreObls: obligations of the unit's callpre clauses at a call of the named function or (interface) method.
